@@ -19,12 +19,14 @@
                                  (a[k] or 0) + (b[k] or 0)
      a * k, k * a             -> Current(Series(a).mul(k)): same index, v * k
      a - b                    -> Current(a.add(-1 * b, fill_value=0))
-     a += b, a -= b, a *= k   -> Current does not define __iadd__/__isub__/__imul__, so the statement runs
-                                 pandas' NDFrame._inplace_method: r = op(a, b); a._update_inplace(
-                                 r.reindex_like(a)) — the result is cut back to a's OWN index (mode
-                                 `InplaceReindex`).  If the class defines the in-place operators as the
-                                 binary ones the mode is `InplaceRebind`.  Which one applies is read from
-                                 the class on every run by the harness and confirmed by the correspondence. *)
+     a += b, a -= b           -> if the class defines __iadd__/__isub__ (it does since a20c019: `return self + other`,
+                                 `return self - other`) the name is rebound to the binary result (mode
+                                 `InplaceRebind`).  Otherwise pandas' NDFrame._inplace_method runs: r = op(a, b);
+                                 a._update_inplace(r.reindex_like(a)) — the result is cut back to a's OWN index
+                                 (mode `InplaceReindex`; that was the defect).  Which one applies is read from the
+                                 class body on every run (Gen/C12Shape.v) and confirmed by the correspondence.
+     a *= k                   -> Current defines no __imul__: pandas' in-place path, r.reindex_like(a) with
+                                 r = a * k (same index, so nothing is lost). *)
 From Coq Require Import List Bool Arith QArith.
 From ACN Require Import Base.Num Base.ListX Gen.C12Shape.
 Import ListNotations.
@@ -117,7 +119,7 @@ Section Current.
     | EAddSer a l => cur_add (denote m a) (cur_series l)
     | EIadd a b => let x := denote m a in cur_inplace m x (cur_add x (denote m b))
     | EIsub a b => let x := denote m a in cur_inplace m x (cur_sub x (denote m b))
-    | EImul a k => let x := denote m a in cur_inplace m x (cur_mul x k)
+    | EImul a k => let x := denote m a in reindex_like x (cur_mul x k)
     end.
 
   (* the value the algebra SHOULD give at station s: evaluate the tree pointwise *)
